@@ -10,7 +10,7 @@ def run(ctx):
             return scns
         # quick: every deviation class for every parrot, but only the TLS 1.3 base where the parrot has one
         has13 = {s["id"] for s in scns if s["ver"] == 772}
-        return [s for s in scns if s["ver"] == 772 or s["id"] not in has13 or s["force_suite"] or s["force_group"]]
+        return [s for s in scns if s["ver"] == 772 or s["id"] not in has13 or s["force_suite"] or s["force_group"] or s.get("edit")]
     scns, events, rej, unadv, mc = nc.run_nego(ctx, "c12", subset=subset)
     kinds = {}
     for r in rej:
@@ -27,10 +27,10 @@ def run(ctx):
     classes = {}
     musts = {}
     for s in scns:
-        for k in ("force_suite", "force_group", "hrr_group", "force_alpn", "sid_echo", "compression", "psk_index"):
+        for k in ("force_suite", "force_group", "hrr_group", "force_alpn", "sid_echo", "compression", "psk_index", "edit"):
             if s.get(k):
                 classes[k] = classes.get(k, 0) + 1
-    for k in ("force_suite", "force_group", "hrr_group", "force_alpn", "sid_echo", "compression", "psk_index"):
+    for k in ("force_suite", "force_group", "hrr_group", "force_alpn", "sid_echo", "compression", "psk_index", "edit"):
         if not classes.get(k):
             raise vlib.Machinery("vacuous: no scenario of deviation class %s" % k)
     res = [e for e in events if e["ev"] == "Result"]
